@@ -632,6 +632,12 @@ def run(ctx):
                        '70% strict histories (inside the guards of C07_step and the hypotheses of C07_designators/C07_counts), 30% wild '
                        '(locator index beyond count, deleted uids, arbitrary icols, colliding names, NA selections); distinct = distinct history text')
     if not proofs_ok: proof_break_violation(ctx, found_input)
+    # the case files of this run are large (every observation of every step) and every witness is stored,
+    # self-contained, under replays/: do not leave them behind
+    import glob
+    for f in glob.glob(os.path.join(BUILD, 'cases', '%s_*_%d_%d.sx*' % (ctx.pid, ctx.seed, os.getpid()))):
+        try: os.remove(f)
+        except OSError: pass
     ctx.cov['trusted_base'] += [
         'checks/C07.py generator (incl. its bookkeeping shadow used only to bias the histories), textual comparison of observations, key derivation',
         'harness/C07.cpp: one public Db call per operation + 16 getter families after each call; library messages silenced through redefine_message/redefine_error',
